@@ -2063,6 +2063,15 @@ class BaseInterpreter(Generic[TContext, TEvent]):
                     default_target, history_node
                 )
                 if resolved:
+                    if parent.type == "parallel":
+                        # 🌐 The default names one region; the others take
+                        #    their normal entry.
+                        return [resolved] + [
+                            child
+                            for child in parent.states.values()
+                            if child.type != "history"
+                            and not self._is_descendant(resolved, child)
+                        ]
                     return [resolved]
             if parent.initial and parent.initial in parent.states:
                 return [parent.states[parent.initial]]
@@ -2651,7 +2660,12 @@ class BaseInterpreter(Generic[TContext, TEvent]):
             branch: Optional[StateNode] = target_state
             while branch is not None and branch.parent is not domain:
                 branch = branch.parent
-            if branch is not None:
+            # 🕰️ A history child is a pseudo-state, not a region: a transition
+            #    to it from inside the parallel state restores ALL regions, so
+            #    every region must be exited first. Scoping to the "branch"
+            #    (the history node itself) exited nothing and the restored
+            #    states were entered on top of the still-active ones.
+            if branch is not None and branch.type != "history":
                 candidates = {
                     s
                     for s in candidates
